@@ -131,7 +131,7 @@ func init() {
 			return s
 		},
 		Run:  c17Run,
-		Rule: "(partial) 11 bodies (text, output tags of outer/data names, loop, conditional, let inside, counting marker, quotes/backslash, nested partial, nested partial with layout) x 7 data maps (none, empty, shadowing an outer name, fresh name, both, shadowing with nil, nil + fresh) x layout {none, layout, layout whose template itself uses a partial with a layout, .js layout} x content type {unset, text/html, application/javascript} x partial name extension {.html, .js, none} x position (top level, inside for, inside if, inside a helper block, inside a user function): output equals the composition at string level of the same sources rendered by plush itself as standalone templates in the equivalent scope (JS case: JSEscapeString of it), a counting marker shows every insertion happened exactly once. (content) every sequence of <=4 items from {contentFor(c1){…}, contentFor(c2){…}, contentOf(c1|c2|undefined) with/without data and with/without default block}: contentFor emits nothing where defined, each contentOf emits the stored block rendered with its data in a child of the definition scope (or its default block, or the render fails when undefined), later definitions win. (absolute) 13 compositions with literal expectations: a list printed by an output tag and modified later in the same block (if / helper / contentFor / function / for body: printed as it was at the tag, like inline); a time printed inside blocks whose own context carries a TIME_FORMAT (contentOf data, default block, BlockWith(child)); empty blocks (a block helper with an empty / comment-only / silent block has a block that renders to nothing; empty contentOf default and contentFor blocks), outer variables, variables and data named like built-in helpers, data overriding and sibling isolation through partials nested three deep, layout of a nested partial, contentFor inside a partial, block helper inside a partial inside a loop. (blocks) block helpers using Block() / BlockWith(child) / calling Block() twice over the same bodies and placements: the string the helper received equals the inline rendering. Non-trivial: all cases with a non-text body or data.",
+		Rule: "(partial) 11 bodies (text, output tags of outer/data names, loop, conditional, let inside, counting marker, quotes/backslash, nested partial, nested partial with layout) x 7 data maps (none, empty, shadowing an outer name, fresh name, both, shadowing with nil, nil + fresh) x layout {none, layout, layout whose template itself uses a partial with a layout, .js layout} x content type {unset, text/html, application/javascript} x partial name extension {.html, .js, none} x position (top level, inside for, inside if, inside a helper block, inside a user function): output equals the composition at string level of the same sources rendered by plush itself as standalone templates in the equivalent scope (JS case: JSEscapeString of it), a counting marker shows every insertion happened exactly once. (content) every sequence of <=4 items from {contentFor(c1){…}, contentFor(c2){…}, contentOf(c1|c2|undefined) with/without data and with/without default block}: contentFor emits nothing where defined, each contentOf emits the stored block rendered with its data in a child of the definition scope (or its default block, or the render fails when undefined), later definitions win. (absolute) 14 compositions with literal expectations: partials nested two and three deep inside a partial that was given a layout (only that partial is wrapped); a list printed by an output tag and modified later in the same block (if / helper / contentFor / function / for body: printed as it was at the tag, like inline); a time printed inside blocks whose own context carries a TIME_FORMAT (contentOf data, default block, BlockWith(child)); empty blocks (a block helper with an empty / comment-only / silent block has a block that renders to nothing; empty contentOf default and contentFor blocks), outer variables, variables and data named like built-in helpers, data overriding and sibling isolation through partials nested three deep, layout of a nested partial, contentFor inside a partial, block helper inside a partial inside a loop. (blocks) block helpers using Block() / BlockWith(child) / calling Block() twice over the same bodies and placements: the string the helper received equals the inline rendering. Non-trivial: all cases with a non-text body or data.",
 		Bound: func(th bool) string {
 			if th {
 				return "all listed combinations; content programs of <=5 items"
@@ -310,6 +310,7 @@ func c17Absolute(t *engine.T) {
 		{"contentFor inside a partial is usable there", `<%= partial("cf.html") %>`, "[in]"},
 		{"block helper inside a partial inside a loop", `<%= for (e) in xs { %><%= partial("bh.html") %><% } %>`, "{a}{b}"},
 		{"a block rendered with its own context prints with that context's settings", `<% contentFor("tf") { %>[<%= when %>]<% } %><%= contentOf("tf", {"TIME_FORMAT": "2006"}) %>|<%= contentOf("tf") %>|<%= contentOf("undef", {"TIME_FORMAT": "Jan 2006"}) { %>(<%= when %>)<% } %>|<%= withfmt() { %><%= when %>;<%= [when][0] %><% } %>|<%= when %>`, "[2021]|[March 04, 2021 05:06:07 +0000]|(Mar 2021)|{03/2021;03/2021}|March 04, 2021 05:06:07 +0000"},
+		{"a layout wraps the partial it was given for, not the partials nested inside", `<%= partial("o2.html", {"layout": "lo.html"}) %>|<%= partial("o2.html") %>|<%= partial("o3.html", {"layout": "lo.html", "x": 5}) %>`, "L(o[leaf|leaf:1])|o[leaf|leaf:1]|L(p[o[leaf:5|leaf:1]|M(leaf:5)])"},
 		{"an output tag in a block prints the value as it is at that tag", `<% let a = [1, 2] %><%= a %><% a[0] = 7 %>|<%= if (true) { %><%= a %><% a[0] = 9 %><% } %>|<%= hasb() { %><%= a %><% a[1] = 5 %><% } %>|<% contentFor("late") { %><%= a %><% a[0] = 0 %><% } %><%= contentOf("late") %>|<% let f = fn() { %><%= a %><% a[1] = 1 %><% } %><%= f() %>|<%= for (x) in [1] { %><%= a %><% a[0] = 3 %><% } %>|<%= a %>`, "12|72|has=true[92]|95|05|01|31"},
 		{"an empty block is a block", `<%= hasb() { %><% } %>|<%= hasb() {} %>|<%= hasb() { } %>|<%= hasb() %>|<%= hasb() { %> <% } %>|<%= hasb() { %><%# c %><% } %>|<%= hasb() { %><% let q = 1 %><% } %>`, "has=true[]|has=true[]|has=true[]|has=false[]|has=true[ ]|has=true[]|has=true[]"},
 		{"an empty default block of contentOf renders to nothing", `A<%= contentOf("undefined") { %><% } %>B<%= contentOf("undef2", {"a": 1}) { } %>C<%= contentOf("undef3") {} %>D`, "ABCD"},
@@ -331,6 +332,11 @@ func c17Absolute(t *engine.T) {
 			e.texts["s1.html"] = `<%= partial("s2.html", {"x": 1}) %>,<%= partial("s3.html") %>`
 			e.texts["s2.html"] = `x:<%= x %>`
 			e.texts["s3.html"] = `y:<%= if (x) { %><%= x %><% } else { %>none<% } %>`
+			e.texts["lo.html"] = `L(<%= yield %>)`
+			e.texts["lm.html"] = `M(<%= yield %>)`
+			e.texts["leaf.html"] = `leaf<%= if (x) { %>:<%= x %><% } %>`
+			e.texts["o2.html"] = `o[<%= partial("leaf.html") %>|<%= partial("leaf.html", {"x": 1}) %>]`
+			e.texts["o3.html"] = `p[<%= partial("o2.html") %>|<%= partial("leaf.html", {"layout": "lm.html"}) %>]`
 			e.texts["cf.html"] = `<% contentFor("pc") { %>[in]<% } %><%= contentOf("pc") %>`
 			e.texts["bh.html"] = `<%= recblk() { %><%= e %><% } %>`
 			ctx := e.context()
